@@ -1756,7 +1756,9 @@ class Exec:
         ret = None
         oldv = self.view(old, targs)
         if c.ret is not None:
-            if c.fresh_ret and isinstance(c.ret, ty.RefT):
+            if callable(c.ret) and not isinstance(c.ret, ty.T):
+                ret = c.ret(self, st)            # custom result builder (python-level tuples / dictionaries of an assumed library-like contract)
+            elif c.fresh_ret and isinstance(c.ret, ty.RefT):
                 ret = self.alloc_obj(st, c.ret.cls)
             elif c.extra.get("returns") is not None:
                 # functional contract: the result is *defined* by a term over the pre-state (the body is proved equal to it,
